@@ -1163,8 +1163,9 @@ fn fuzz_phase<P: Property>(
         std::fs::create_dir_all(&corpus).expect("fuzz corpus dir");
         let max_len: usize = if target == "raw_doc" { 2048 } else { 4096 };
         // the byte-level C20 case costs about a tenth of a millisecond (no generator, no server):
-        // it gets 25 times the runs of the structured target
-        let runs = if target == "raw_doc" && id == "C20" { runs * 25 } else { runs };
+        // it gets 10 times the runs of the structured target (more brings little: with a corpus of
+        // several thousand files shared by 16 jobs the rate falls from 8 000 to 2 000 cases a second)
+        let runs = if target == "raw_doc" && id == "C20" { runs * 10 } else { runs };
         // starting corpus: pseudo-random files of several lengths (libFuzzer ramps lengths slowly
         // from an empty corpus); for the raw target also a few Markdown snippets
         let mut x = hash64(format!("{}-{}-{}", id, target, opts.seed).as_bytes()) | 1;
